@@ -367,10 +367,8 @@ req0_recv_cb(void *arg)
 	nni_id_remove(&s->requests, id);
 	ctx->request_id = 0;
 	if (ctx->req_msg != NULL) {
-		// Only free msg if we originally cloned it (for retries)
-		if (ctx->retry > 0) {
-			nni_msg_free(ctx->req_msg);
-		}
+		// We always hold our own reference (see req0_run_send_queue).
+		nni_msg_free(ctx->req_msg);
 		ctx->req_msg = NULL;
 	}
 
@@ -544,11 +542,11 @@ req0_run_send_queue(req0_sock *s, nni_aio_completions *sent_list)
 		// At this point, we will never give this message back to
 		// the user, so we don't have to worry about making it
 		// unique.  We can freely clone it.
-		// But only do so if we need to hang onto it (for potential
-		// retries)
-		if (ctx->retry > 0) {
-			nni_msg_clone(ctx->req_msg);
-		}
+		// We always keep our own reference: whether it is needed
+		// for a retry is decided by the resend time in force when
+		// the retry happens, which may have been changed since, and
+		// the reference must be released exactly once either way.
+		nni_msg_clone(ctx->req_msg);
 		nni_aio_set_msg(&p->aio_send, ctx->req_msg);
 		nni_pipe_send(p->pipe, &p->aio_send);
 	}
@@ -568,10 +566,8 @@ req0_ctx_reset(req0_ctx *ctx)
 		ctx->request_id = 0;
 	}
 	if (ctx->req_msg != NULL) {
-		// Only free msg if we originally cloned it (for retries)
-		if (ctx->retry > 0) {
-			nni_msg_free(ctx->req_msg);
-		}
+		// We always hold our own reference (see req0_run_send_queue).
+		nni_msg_free(ctx->req_msg);
 		ctx->req_msg = NULL;
 	}
 	if (ctx->rep_msg != NULL) {
